@@ -84,6 +84,68 @@ pub fn row_matches(row: &transpose::Frame, view: &FrameView, i: usize, _version:
 	Ok(())
 }
 
+/// In-progress representation: drive the incremental API; whenever a frame completes (>= 3.0: its Frame
+/// End arrived; < 3.0: a later frame opened) its row view must equal the mutable columns at that index,
+/// immediately and again at the end of the stream.
+fn inprogress(bytes: &[u8], m: &ModelGame) -> Result<(), Fail> {
+	use crate::access::view_mutable;
+	use peppi::io::slippi::de;
+	let has_fend = spec::gte(m.v(), (3, 0));
+	let mut r = std::io::Cursor::new(bytes);
+	let out = rt::guard(|| -> Result<Result<(), String>, String> {
+		let size = de::parse_header(&mut r, None).map_err(|e| e.to_string())? as usize;
+		let mut state = de::parse_start(&mut r, None).map_err(|e| e.to_string())?;
+		let version = state.start().slippi.version;
+		let mut closed = 0usize;
+		while state.bytes_read() < size {
+			let code = de::parse_event(&mut r, &mut state, None).map_err(|e| e.to_string())?;
+			let len = state.frames().len();
+			let now = if has_fend {
+				if code == spec::EV_FRAME_END {
+					len
+				} else {
+					closed
+				}
+			} else {
+				len.saturating_sub(1)
+			};
+			if now > closed {
+				let cur = view_mutable(state.frames());
+				for i in closed..now {
+					let row = state.frame(i);
+					let row2 = state.frames().transpose_one(i, version);
+					if format!("{:?}", row) != format!("{:?}", row2) {
+						return Ok(Err(format!("ParseState::frame({}) != frames().transpose_one({})", i, i)));
+					}
+					if let Err(e) = row_matches(&row, &cur, i, version) {
+						return Ok(Err(format!("in-progress row {} (just completed by event {:#x}): {}", i, code, e)));
+					}
+				}
+				closed = now;
+			}
+			if code == spec::EV_GAME_END {
+				break;
+			}
+		}
+		let cur = view_mutable(state.frames());
+		for i in 0..closed {
+			if let Err(e) = row_matches(&state.frame(i), &cur, i, version) {
+				return Ok(Err(format!("in-progress row {} at end of stream: {}", i, e)));
+			}
+		}
+		Ok(Ok(()))
+	});
+	match out {
+		rt::Out::Ok(Ok(())) => Ok(()),
+		rt::Out::Ok(Err(e)) => {
+			let key: String = e.split(" index ").next().unwrap_or("").chars().filter(|c| !c.is_ascii_digit()).take(70).collect();
+			Err(Fail::new(format!("op=rowview inprogress {}", key), format!("v{}.{}: {}", m.version.0, m.version.1, e)).with_file("slp", bytes))
+		}
+		rt::Out::Err(e) => Err(Fail::new("op=rowview inprogress driver_err", e).with_file("slp", bytes)),
+		rt::Out::Panic(p) => Err(Fail::new(format!("op=rowview inprogress panic~{}", rt::panic_site(&p)), p).with_file("slp", bytes)),
+	}
+}
+
 fn check(ctx: &Ctx, m: &ModelGame, label: &str, counting: bool) -> Result<(), Fail> {
 	let bytes = m.encode();
 	if counting {
@@ -110,7 +172,7 @@ fn check(ctx: &Ctx, m: &ModelGame, label: &str, counting: bool) -> Result<(), Fa
 			Fail::new(format!("op=rowview {}", key), format!("v{}.{} frame index {}: {}", m.version.0, m.version.1, i, e)).with_file("slp", &bytes).with_detail(m.summary())
 		})?;
 	}
-	Ok(())
+	inprogress(&bytes, m)
 }
 
 fn sweep_model(i: usize) -> ModelGame {
@@ -141,7 +203,7 @@ pub fn case(ctx: &Ctx, kind: &str, params: &Value, counting: bool) -> Result<(),
 }
 
 pub fn run(ctx: &Ctx) -> usize {
-	ctx.set_rule("generated replays of all 784 minor versions x 3 port layouts with pairwise-distinct leaf patterns (so a swapped pair of same-typed fields cannot hide), plus random models; every frame index: Game::frame(i) / transpose_one(i) compared leaf by leaf (two hand-written accessor tables: columns and row structs, keyed by the public field names) with the column value at i, absent columns <=> absent row fields, items == the slice delimited by the item offsets; the in-progress representation is checked for every completed frame inside C12's incremental driver; non-trivial = >=1 row; distinct by xxh3 of the file");
+	ctx.set_rule("generated replays of all 784 minor versions x 3 port layouts with pairwise-distinct leaf patterns (so a swapped pair of same-typed fields cannot hide), plus random models; every frame index: Game::frame(i) / transpose_one(i) compared leaf by leaf (two hand-written accessor tables: columns and row structs, keyed by the public field names) with the column value at i, absent columns <=> absent row fields, items == the slice delimited by the item offsets; the in-progress representation: the incremental API is driven over the same file and each frame's row view (ParseState::frame / mutable transpose_one) is compared with the mutable columns as soon as it completes and again at the end of the stream (C12's driver does the same under read fragmentation); non-trivial = >=1 row; distinct by xxh3 of the file");
 	let mut violations = 0;
 	let n = spec::all_minors().len() * ctx.n(1, 3);
 	if run_enum(ctx, "sweep", n, |i| json!({ "i": i }), |i| check(ctx, &sweep_model(i), "sweep", true)).is_some() {
